@@ -147,6 +147,10 @@ pub enum Cer {
     /// a silent assertion on held credential k: the request waives user presence (up = false); it is an assertion like
     /// any other as far as counters go
     AssertSilent { cred: u8 },
+    /// an assertion on held credential k during which the user declines: it fails and leaves the shared store alone
+    AssertDeclined { cred: u8 },
+    /// an assertion whose allow list names both held credentials (credential k first)
+    AssertTwoIds { cred: u8 },
 }
 
 #[derive(Clone, Debug, Serialize, Deserialize, PartialEq, Eq, Hash)]
@@ -174,6 +178,8 @@ pub enum Done {
     Excluded,
     /// an assertion that was expected to be refused was refused
     Refused,
+    /// the user declined and the assertion failed
+    Declined,
 }
 
 pub struct RunOut {
@@ -201,7 +207,8 @@ where
     let mut tasks = vec![];
     let single = cfg.cers.iter().any(|c| matches!(c, Cer::Assert { allow: false, .. }));
     for (t, c) in cfg.cers.iter().enumerate() {
-        let uv = ScriptedUv::new(UvScript { yields: cfg.uv_yields.get(t).copied().unwrap_or(0), ..UvScript::verified() });
+        let declines = matches!(c, Cer::AssertDeclined { .. });
+        let uv = ScriptedUv::new(UvScript { yields: cfg.uv_yields.get(t).copied().unwrap_or(0), outcome: if declines { Err(0x27) } else { Ok((true, true)) }, ..UvScript::verified() });
         let store = Tagged { tag: t, inner: shared.clone(), log: log.clone() };
         let hmac = if matches!(c, Cer::AssertRefused { .. }) { cer::HmacCfg::UvOnly } else { cer::HmacCfg::None };
         let mut auth: Authenticator<Tagged<W>, ScriptedUv> = cer::build_authenticator(store, uv, &AuthCfg { counter: true, hmac, ..Default::default() });
@@ -211,6 +218,36 @@ where
                     rp_id: RP.into(),
                     client_data_hash: vec![t as u8; 32].into(),
                     allow_list: allow.then(|| vec![cer::descriptor(&held_id(if single { 0 } else { cred }))]),
+                    extensions: None,
+                    options: get_assertion::Options { rk: false, up: true, uv: true },
+                    pin_auth: None,
+                    pin_protocol: None,
+                };
+                match auth.get_assertion(req).await {
+                    Ok(r) => Done::Asserted { cred: r.credential.map(|c| c.id.to_vec()).unwrap_or_default(), counter: u32::from_be_bytes(r.auth_data.to_vec()[33..37].try_into().unwrap()) },
+                    Err(e) => Done::Failed(e.into()),
+                }
+            }),
+            Cer::AssertDeclined { cred } => Box::pin(async move {
+                let req = get_assertion::Request {
+                    rp_id: RP.into(),
+                    client_data_hash: vec![t as u8; 32].into(),
+                    allow_list: Some(vec![cer::descriptor(&held_id(if single { 0 } else { cred }))]),
+                    extensions: None,
+                    options: get_assertion::Options { rk: false, up: true, uv: true },
+                    pin_auth: None,
+                    pin_protocol: None,
+                };
+                match auth.get_assertion(req).await {
+                    Ok(r) => Done::Asserted { cred: r.credential.map(|c| c.id.to_vec()).unwrap_or_default(), counter: u32::from_be_bytes(r.auth_data.to_vec()[33..37].try_into().unwrap()) },
+                    Err(_) => Done::Declined,
+                }
+            }),
+            Cer::AssertTwoIds { cred } => Box::pin(async move {
+                let req = get_assertion::Request {
+                    rp_id: RP.into(),
+                    client_data_hash: vec![t as u8; 32].into(),
+                    allow_list: Some(vec![cer::descriptor(&held_id(if single { 0 } else { cred })), cer::descriptor(&held_id(if single { 1 } else { 1 - cred % 2 }))]),
                     extensions: None,
                     options: get_assertion::Options { rk: false, up: true, uv: true },
                     pin_auth: None,
@@ -422,6 +459,11 @@ pub fn judge(cfg: &Config, out: &RunOut) -> Result<Verdict, String> {
             let show = |v: &[(Vec<u8>, Option<u32>)]| v.iter().map(|(_, c)| format!("{c:?}")).collect::<Vec<_>>().join(", ");
             return Err(format!("the authenticators asked the shared store to hold the counters [{}], the store behind the lock wrapper received [{}] (schedule {:?})", show(&asked), show(&reached), out.choices));
         }
+        for (t, c) in cfg.cers.iter().enumerate() {
+            if matches!(c, Cer::AssertDeclined { .. }) && matches!(out.results.get(t), Some(Some(Done::Declined))) && out.events.iter().any(|e| e.tag == t && e.kind == "update") {
+                return Err(format!("ceremony #{t}: the user declined and the assertion failed, yet it wrote to the shared store"));
+            }
+        }
         for (t, r) in out.results.iter().enumerate() {
             if let Some(Done::Asserted { counter, .. }) = r {
                 let mine: Vec<Option<u32>> = out.events.iter().filter(|e| e.tag == t && e.kind == "update" && e.begin).map(|e| e.counter).collect();
@@ -519,7 +561,7 @@ pub fn judge(cfg: &Config, out: &RunOut) -> Result<Verdict, String> {
         }
         if let Some(Done::Failed(code)) = r {
             // when one counter update is refused by the store, the assertion that issued it has to fail (once)
-            let is_assert = matches!(cfg.cers.get(t), Some(Cer::Assert { .. } | Cer::AssertSilent { .. }));
+            let is_assert = matches!(cfg.cers.get(t), Some(Cer::Assert { .. } | Cer::AssertSilent { .. } | Cer::AssertTwoIds { .. }));
             if cfg.fail_update.is_some() && is_assert && !tolerated_failure {
                 tolerated_failure = true;
                 continue;
@@ -604,7 +646,7 @@ fn check_generated(ctx: &mut Ctx, case: &(Config, Vec<u8>)) -> Result<(), String
 }
 
 fn config(max_tasks: usize) -> impl Strategy<Value = Config> {
-    let cer = prop_oneof![6 => (0u8..2, proptest::bool::weighted(0.8)).prop_map(|(cred, allow)| Cer::Assert { cred, allow }), 4 => (0u8..2).prop_map(|user| Cer::Register { user }), 1 => Just(Cer::RegisterExcluded), 2 => (0u8..2).prop_map(|cred| Cer::AssertRefused { cred }), 2 => (0u8..2).prop_map(|cred| Cer::AssertSilent { cred })];
+    let cer = prop_oneof![6 => (0u8..2, proptest::bool::weighted(0.8)).prop_map(|(cred, allow)| Cer::Assert { cred, allow }), 4 => (0u8..2).prop_map(|user| Cer::Register { user }), 1 => Just(Cer::RegisterExcluded), 2 => (0u8..2).prop_map(|cred| Cer::AssertRefused { cred }), 2 => (0u8..2).prop_map(|cred| Cer::AssertSilent { cred }), 2 => (0u8..2).prop_map(|cred| Cer::AssertDeclined { cred }), 2 => (0u8..2).prop_map(|cred| Cer::AssertTwoIds { cred })];
     (prop_oneof![Just(Lock::ArcMutex), Just(Lock::ArcRwLock)], 0usize..3, proptest::collection::vec(0usize..4, 3), proptest::collection::vec(cer, 2..=max_tasks), prop_oneof![Just(5u32), Just(0), Just(1_000_000), Just((1u32 << 31) - 2), Just((1u32 << 31) - 1), Just(3_000_000_000), Just(u32::MAX - 3), Just(u32::MAX - 2)]).prop_map(|(lock, store_yields, uv_yields, mut cers, counter)| {
         // from 2^32-3 only two ceremonies (a third assertion would repeat the maximum, which is C08's subject)
         if counter == u32::MAX - 2 {
@@ -637,6 +679,11 @@ pub fn run(ctx: &mut Ctx) {
         vec![Cer::AssertRefused { cred: 0 }, Cer::Assert { cred: 0, allow: true }],
         vec![Cer::AssertSilent { cred: 0 }, Cer::Assert { cred: 0, allow: true }],
         vec![Cer::AssertSilent { cred: 0 }, Cer::AssertSilent { cred: 0 }],
+        vec![Cer::AssertDeclined { cred: 0 }, Cer::Assert { cred: 0, allow: true }],
+        vec![Cer::AssertDeclined { cred: 0 }, Cer::AssertDeclined { cred: 0 }],
+        vec![Cer::AssertTwoIds { cred: 0 }, Cer::Assert { cred: 0, allow: true }],
+        vec![Cer::AssertTwoIds { cred: 0 }, Cer::AssertTwoIds { cred: 1 }],
+        vec![Cer::AssertTwoIds { cred: 1 }, Cer::Register { user: 0 }],
     ];
     // a store that refuses the first / second counter update that reaches it, and registrations through both wrappers on a
     // store whose update only rewrites existing records
